@@ -124,8 +124,17 @@ func init() {
 				add("startup_failed", "aslogmap", fmt.Sprintf("%s: AsLogMap: %v", file, err))
 			} else {
 				for id := range ids {
-					if _, ok := m[id]; !ok {
+					li, ok := m[id]
+					if !ok {
 						add("map_list_mismatch", "missing_in_map", fmt.Sprintf("%s: %q is in the log list but not in the witness map", file, ids[id]))
+						continue
+					}
+					// ... and describes the same log: the origin the witness will insist on is the entry's own
+					if li.Origin != ids[id] {
+						add("map_list_mismatch", "origin_in_map", fmt.Sprintf("%s: the witness map files entry %q under its ID but with origin %q", file, ids[id], li.Origin))
+					}
+					if li.SigV == nil {
+						add("map_list_mismatch", "no_verifier_in_map", fmt.Sprintf("%s: the witness map has no verifier for entry %q", file, ids[id]))
 					}
 				}
 				for id := range m {
